@@ -50,6 +50,15 @@ theorem C15_accumulation_fails (d y0 : List Rat) (tol : Rat) (hlen : d.length = 
   right
   exact Rat.not_lt.mpr hd
 
+/-- RELATIVE NORM, ZERO COMPONENT: a comparison against a previous state with a component that is exactly 0 is never
+"small" (numpy yields inf/nan there) — a variable resting at 0 can delay success, never cause it. -/
+theorem C15_rel_norm_zero_component_never_small (tol : Rat) (y2 y1 : List Rat) (h : (0 : Rat) ∈ y1) :
+    smallRel tol y2 y1 = false := by
+  have : y1.any (· == 0) = true := by
+    rw [List.any_eq_true]
+    exact ⟨0, h, by simp⟩
+  simp [smallRel, this]
+
 /-- CONTRACTION ⇒ CLOSE: if one integrator step contracts distances to the steady state `xs` by a factor
 `c < 1` and "small" means `dist y2 y1 < tol`, a reported steady state lies within `c/(1-c)·tol` of `xs`. -/
 theorem C15_contraction_close {E : Type} [PseudoMetricSpace E] (step : E → E) (xs y0 : E) (c tol : ℝ)
@@ -72,6 +81,25 @@ theorem C15_failure_propagates (step : σ → σ) (small : σ → σ → Bool) (
       (fun _ => ssRun Gen.copies step small Gen.maxSteps y0)
     getResult sim = .error .noSteadyState ∧ workerRow (getResult sim) = none := by
   simp [simulateToSteadyState, Sim.fresh, h, handleResult, getResult, workerRow]
+
+/-- ... also on a simulator that ALREADY HOLDS RESULTS of earlier successful calls (`simulate`, a time course):
+a later steady-state search that fails turns `get_result()` into the error; the stored rows are never presented
+as the outcome. -/
+theorem C15_failure_after_results (step : σ → σ) (small : σ → σ → Bool) (y0 : σ)
+    (rows : Option (List (Nat × σ)))
+    (h : ssRun Gen.copies step small Gen.maxSteps y0 = .noSteadyState) :
+    let sim := simulateToSteadyState Gen.stepSize (⟨[], rows⟩ : Sim σ)
+      (fun _ => ssRun Gen.copies step small Gen.maxSteps y0)
+    getResult sim = .error .noSteadyState ∧ workerRow (getResult sim) = none := by
+  simp [simulateToSteadyState, h, handleResult, getResult, workerRow]
+
+/-- ... and a success is appended after the stored rows -/
+theorem C15_success_after_results (step : σ → σ) (small : σ → σ → Bool) (y0 : σ) (n : Nat) (r : σ)
+    (rows : List (Nat × σ))
+    (h : ssRun Gen.copies step small Gen.maxSteps y0 = .steady n r) :
+    getResult (simulateToSteadyState Gen.stepSize (⟨[], some rows⟩ : Sim σ)
+      (fun _ => ssRun Gen.copies step small Gen.maxSteps y0)) = .ok (rows ++ [(n * Gen.stepSize, r)]) := by
+  simp [simulateToSteadyState, h, handleResult, getResult]
 
 /-- ... and success propagates unchanged: one row, time `n * step_size`, the loop's state. -/
 theorem C15_success_propagates (step : σ → σ) (small : σ → σ → Bool) (y0 : σ) (n : Nat) (r : σ)
